@@ -140,8 +140,15 @@ fn get_text_position(element: &mut SvgElement) -> Result<(f32, f32, bool, LocSpe
     // Assumption is that text should be centered within the rect,
     // and has styling via CSS to reflect this, e.g.:
     //  text.d-text { dominant-baseline: central; text-anchor: middle; }
-    let (mut tdx, mut tdy) = element
-        .bbox()?
+    // A <text> element keeps its own `transform` attribute, which a renderer applies
+    // to the position computed here - so that position must be the untransformed one.
+    // (Text generated for another shape carries no transform and follows the shape.)
+    let bbox = if element.name == "text" {
+        element.bbox_raw()?
+    } else {
+        element.bbox()?
+    };
+    let (mut tdx, mut tdy) = bbox
         .ok_or_else(|| SvgdxError::MissingBoundingBox(element.to_string()))?
         .locspec(text_anchor);
     tdx += t_dx;
